@@ -8,6 +8,7 @@ import hashlib
 import json
 import os
 import random
+import re
 import time
 
 import lib
@@ -65,7 +66,7 @@ FAMILIES = {
     ]),
 }
 # replayed cases per family and question (the model runs stay exhaustive; the replay takes a VERIF_SEED sample)
-CAP = {"quick": {"basic": 450, "sub": 900, "topo": 900, "walk": 500, "help": 900, "specs": 2500, "none": 729},
+CAP = {"quick": {"basic": 450, "sub": 900, "topo": 900, "walk": 500, "help": 900, "specs": 8000, "none": 729},
        "thorough": {"basic": 10 ** 7, "sub": 60000, "topo": 60000, "walk": 30000, "help": 20000, "specs": 60000,
                     "none": 10 ** 7}}
 NVAR = {"quick": 1, "thorough": 2}
@@ -105,6 +106,9 @@ ASSUMPTIONS = [
     "bounds: exhaustive for the stated families (3-4 components) only; larger programs (up to 7 / 8 components) come "
     "from TLC's simulator with RandomElement, seeded by VERIF_SEED",
 ]
+
+
+_QT = re.compile(r'\\"q\\":\{[^}]*?\\"t\\":\\"(\w+)\\"')
 
 
 def tla_set(xs):
@@ -308,8 +312,8 @@ def run(prop, tier):
         byq = {}
         for line in raw:
             # the question type is read without parsing the whole record
-            k = line.find('\\"t\\":\\"')
-            qt = line[k + 8:line.find('\\"', k + 8)] if k >= 0 else "none"
+            m = _QT.search(line)
+            qt = m.group(1) if m else "none"
             byq.setdefault(qt, []).append(line)
         emitted[name] = dict((qt, len(v)) for qt, v in sorted(byq.items()))
         for qt, lines in sorted(byq.items()):
